@@ -321,12 +321,23 @@ func c06Lifecycle(x *X, c *Chooser, depth int) {
 	renders := 0
 	var ops []string
 	for step := 0; step < depth; step++ {
-		k := c.Choose(11)
+		k := c.Choose(13)
 		if k == 0 {
 			break
 		}
 		x.Transition(1)
 		switch k {
+		case 11, 12:
+			// the header replaced by a narrower / wider one
+			hs := [][]string{{"only"}, {"n1", "n2", "n3"}}[k-11]
+			c.Logf("ht.AddHeaders(%q)", hs)
+			items := make([]interface{}, len(hs))
+			for i := range hs {
+				items[i] = hs[i]
+			}
+			t.AddHeaders(items...)
+			g.Header = append([]string{}, hs...)
+			ops = append(ops, fmt.Sprintf("reheader%d", len(hs)))
 		case 8, 9:
 			// a render that fails part-way (the writer refuses, or takes half of a write and then refuses): not judged
 			// itself (C15), but it must leave nothing behind on the wrapper
@@ -418,7 +429,7 @@ func c06Lifecycle(x *X, c *Chooser, depth int) {
 }
 
 func runC06(x *X) {
-	x.Explore("wrapper-lifecycle", ExploreOpts{ShardDepth: 2, Bound: fmt.Sprintf("all sequences of <=%d operations {set generator A, set generator B, set caption, set id+class, add row, add separator, Render, RenderTo a writer failing at / half-way through its first Write, Render with a generator that panics} on one long-lived wrapper", x.Pick(5, 6))}, func(c *Chooser) {
+	x.Explore("wrapper-lifecycle", ExploreOpts{ShardDepth: 2, Bound: fmt.Sprintf("all sequences of <=%d operations {set generator A, set generator B, set caption, set id+class, add row, add separator, Render, RenderTo a writer failing at / half-way through its first Write, Render with a generator that panics, AddHeaders(1 cell), AddHeaders(3 cells)} on one long-lived wrapper", x.Pick(5, 6))}, func(c *Chooser) {
 		c06Lifecycle(x, c, x.Pick(5, 6))
 	})
 	var texts []string
